@@ -272,3 +272,33 @@ pub fn a6_smawk_shape(c: &FragCase) -> Outcome {
     }
     Ok(calls.get() >= 2)
 }
+
+/// The public dispatch `WrapAlgorithm::wrap(words, widths)` hands the words and EVERY listed width, in order, to the algorithm:
+/// its result is the one `wrap_first_fit` / `wrap_optimal_fit` give for the same words and the same widths as f64.
+/// c.text: space-separated ASCII words; c.aux: the width list, comma separated; c.n: 0 = first-fit, 1 = optimal-fit.
+pub fn dispatch_same(c: &crate::common::StrCase) -> Outcome {
+    use textwrap::core::Word;
+    use textwrap::{WordSeparator, WrapAlgorithm};
+    let words: Vec<Word<'_>> = WordSeparator::AsciiSpace.find_words(&c.text).collect();
+    let ws: Vec<usize> = c.aux.split(',').filter(|x| !x.is_empty()).map(|x| x.parse().unwrap()).collect();
+    let wf: Vec<f64> = ws.iter().map(|w| *w as f64).collect();
+    let shape = |lines: &[&[Word<'_>]]| -> Vec<usize> { lines.iter().map(|l| l.len()).collect() };
+    let (got, want) = if c.n == 0 {
+        (shape(&WrapAlgorithm::FirstFit.wrap(&words, &ws)), shape(&wrap_first_fit(&words, &wf)))
+    } else {
+        #[cfg(feature = "full")]
+        {
+            let pen = Penalties::new();
+            let direct = wrap_optimal_fit(&words, &wf, &pen).map_err(|e| format!("overflow for small integers: {}", e))?;
+            (shape(&WrapAlgorithm::OptimalFit(pen).wrap(&words, &ws)), shape(&direct))
+        }
+        #[cfg(not(feature = "full"))]
+        {
+            return Ok(false);
+        }
+    };
+    if got != want {
+        return Err(format!("WrapAlgorithm::wrap({:?}, {:?}) gives line lengths {:?}, the algorithm called directly with the same widths gives {:?}", c.text, ws, got, want));
+    }
+    Ok(got.len() >= 3)
+}
